@@ -103,6 +103,20 @@ CHECKS["C11"] = {
     "level_note": "queue-depth rule only judged when the remote advertised reqq; bitfield-first rule allows port/extended-handshake before it",
 }
 
+CHECKS["C16"] = {
+    "level": "exploration",
+    "engine": "E3 swarm",
+    "rule": ("random upload histories (30-80 steps, quiescent cut after every step): store pre-filled from truth, 1-16 scripted leechers flap interest, send valid / zero-length / spanning / unaligned / out-of-range / duplicate requests, floods of 260-1000 requests, cancels of present and absent requests, stop reading (write congestion), disconnect in any choke state; choke rotation over virtual minutes; eviction and refill of requested pieces; torrent deleted while peers are unchoked. "
+             "Distinct = class vector of the action and message counts; non-trivial = at least one request sent and one Piece received."),
+    "assumptions": E3_ASSUME + ["the 'at most five unchoked per torrent' rotation is a mechanism, not part of the statement: it is reported, not asserted"],
+    "min": {"distinct_nontrivial": {"quick": 50, "thorough": 50}, "counters": {"pieces_answering_our_requests": 2000, "unchoke_accounting_cuts_nonzero": 1000, "rejects_for_our_requests": 100}},
+    "parts": [{"name": "upload", "pkg": "c16_upload", "race": False, "shards": 16},
+              {"name": "upload-race", "pkg": "c16_upload", "race": True, "shards": 16, "env": {"VERIF_RACE_SUBSET": "1"}}],
+    "technique": "runtime monitor: upload-discipline checker inside the scripted leecher (every Piece must answer an outstanding, un-cancelled, un-choked request with the true bytes) + unchoke accounting invariant by reflect at quiescent cuts; -race",
+    "level_text": "Every Piece/Reject/Choke/Unchoke storrent sends in the generated histories is judged by the receiving scripted leecher against its own request log and the truth; peer.NumUnchoking() is compared with the actors' flags and the remotes' view at every cut and after deletion. Held on the histories observed.",
+    "level_note": "requests sent by a non-fast remote while it knows it is choked are expected to be dropped silently",
+}
+
 MANIFEST_META = {
     "hook_commits": ["db0b83b", "f0ff4d9", "d998a9e"],
     "pending_reason": {},
